@@ -21,6 +21,7 @@ type c09params struct {
 	QOS    []int
 	Faults bool // write faults, dial failure, session faults
 	Extra  bool // spurious / duplicate acknowledgements, refused connack, subscribe/unsubscribe
+	Wrap   bool // the session's packet-id counter starts at 65534: the ids in flight straddle the 16-bit wrap-around
 }
 
 func init() {
@@ -57,6 +58,8 @@ type c09w struct {
 	nmsg   int
 	last   packet.Generic // last acknowledgement the broker sent
 	connacked bool
+	txOrder map[packet.ID]int // order of first transmission of the QoS>0 publish currently using an id (C15, retransmission order)
+	txN     int
 	retrans []string // retransmissions (dup PUBLISH / PUBREL without preceding PUBREC on this connection) seen since the last reset
 	fresh   []string // non-dup QoS>0 publishes seen since the last reset
 	evname string
@@ -78,6 +81,13 @@ func (s *c09w) onClientWrite(pkt packet.Generic) {
 	p, ok := pkt.(*packet.Publish)
 	if !ok || p.Message.QOS == 0 {
 		return
+	}
+	if !p.Dup {
+		if s.txOrder == nil {
+			s.txOrder = map[packet.ID]int{}
+		}
+		s.txN++
+		s.txOrder[p.ID] = s.txN
 	}
 	var stored packet.Generic
 	vrt.Atomic(func() { stored, _ = s.sess.MemorySession.LookupPacket(session.Outgoing, p.ID) })
@@ -163,6 +173,25 @@ func (s *c09w) checkRetrans(want []string) {
 		s.x.Failf("retransmit-on-connect", "retransmission-set-differs", "after CONNACK on the reused session the client retransmitted [%s], the session records [%s]", strings.Join(gs, " "), strings.Join(want, " "))
 	} else if len(want) > 0 {
 		s.x.Note("retransmission")
+	}
+	// ... in the order of their original transmission (C15); a PUBREL stands for the publish it replaced
+	last, lastDesc := 0, ""
+	for _, r := range s.retrans {
+		var id int
+		if _, err := fmt.Sscanf(r, "PUBLISH(%d,", &id); err != nil {
+			if _, err := fmt.Sscanf(r, "PUBREL(%d)", &id); err != nil {
+				continue
+			}
+		}
+		o, ok := s.txOrder[packet.ID(id)]
+		if !ok {
+			continue
+		}
+		if o < last {
+			s.x.Failf("retransmission-order", "client-resend-out-of-order", "after the resume the client retransmitted %v; %s was first sent before %s", s.retrans, r, lastDesc)
+			break
+		}
+		last, lastDesc = o, r
 	}
 }
 
@@ -287,6 +316,9 @@ func c09(x *explore.X, pr c09params) {
 	s.n = &net{x: x}
 	s.n.onSend = s.onClientWrite
 	s.sess = &recSession{MemorySession: session.NewMemorySession()}
+	if pr.Wrap {
+		s.sess.MemorySession.Counter = session.NewIDCounterWithNext(65534)
+	}
 	for step := 0; step < pr.Depth; step++ {
 		var evs []string
 		if !s.usable() {
@@ -713,10 +745,12 @@ func runC09(r *report.Report) {
 		bound int
 	}
 	cfgs := []c{{"core-depth11", c09params{Depth: 11, QOS: []int{1, 2}}, 0}, {"faults-depth8", c09params{Depth: 8, QOS: []int{0, 1, 2}, Faults: true}, 0},
-		{"extra-depth7", c09params{Depth: 7, QOS: []int{1}, Extra: true, Faults: true}, 0}, {"core-reordered", c09params{Depth: 7, QOS: []int{1, 2}, Faults: true}, 1}, {"core-reordered2", c09params{Depth: 5, QOS: []int{1, 2}}, 2}}
+		{"extra-depth7", c09params{Depth: 7, QOS: []int{1}, Extra: true, Faults: true}, 0}, {"core-reordered", c09params{Depth: 7, QOS: []int{1, 2}, Faults: true}, 1}, {"core-reordered2", c09params{Depth: 5, QOS: []int{1, 2}}, 2},
+		{"core-ids-wrap-depth9", c09params{Depth: 9, QOS: []int{1, 2}, Wrap: true}, 0}}
 	if r.Tier == "thorough" {
 		cfgs = []c{{"core-depth13", c09params{Depth: 13, QOS: []int{1, 2}}, 0}, {"faults-depth9", c09params{Depth: 9, QOS: []int{0, 1, 2}, Faults: true}, 0},
-			{"extra-depth8", c09params{Depth: 8, QOS: []int{1, 2}, Extra: true, Faults: true}, 0}, {"core-reordered", c09params{Depth: 8, QOS: []int{1, 2}, Faults: true}, 1}, {"core-reordered2", c09params{Depth: 6, QOS: []int{1, 2}}, 2}}
+			{"extra-depth8", c09params{Depth: 8, QOS: []int{1, 2}, Extra: true, Faults: true}, 0}, {"core-reordered", c09params{Depth: 8, QOS: []int{1, 2}, Faults: true}, 1}, {"core-reordered2", c09params{Depth: 6, QOS: []int{1, 2}}, 2},
+			{"core-ids-wrap-depth11", c09params{Depth: 11, QOS: []int{1, 2}, Wrap: true}, 0}}
 	}
 	rb := 3
 	if r.Tier == "thorough" {
@@ -735,7 +769,7 @@ func runC09(r *report.Report) {
 	}
 	for _, cf := range cfgs {
 		st := explore.Explore(explore.Config{Harness: "C09.hist", Params: mk(cf.p), Bound: cf.bound, Workers: report.Workers(), Deadline: r.Deadline()})
-		r.AddExploration(cf.name, "history", fmt.Sprintf("all histories of depth %d over API calls and broker behaviours (qos %v, faults %v, spurious/duplicate acks and sub/unsub %v), delay bound %d", cf.p.Depth, cf.p.QOS, cf.p.Faults, cf.p.Extra, cf.bound), st,
+		r.AddExploration(cf.name, "history", fmt.Sprintf("all histories of depth %d over API calls and broker behaviours (qos %v, faults %v, spurious/duplicate acks and sub/unsub %v, id counter starting at 65534 %v), delay bound %d", cf.p.Depth, cf.p.QOS, cf.p.Faults, cf.p.Extra, cf.p.Wrap, cf.bound), st,
 			"one execution = one history; instant clause at every PUBLISH the client writes, store / future / return clauses at every quiescence; non-trivial = fault, acknowledgement and retransmission events (counted)", "fault", "ack", "retransmission")
 	}
 	// the closed system: this client against the real broker (package h/e2e)
